@@ -12,6 +12,7 @@ import (
 	"time"
 
 	badger "github.com/dgraph-io/badger/v4"
+	"github.com/dgraph-io/badger/v4/options"
 
 	"verif/h/core"
 	"verif/h/drv"
@@ -120,13 +121,23 @@ func C07(c *core.Ctx) {
 					return
 				}
 				opt := w.Opt
-				kind := []string{"rw", "ro", "rw-changed"}[w.R.Intn(3)]
+				kind := []string{"rw", "ro", "rw-changed", "rw-other-compression", "ro-other-compression"}[w.R.Intn(5)]
 				kinds += kind + ","
 				var h0 string
 				switch kind {
 				case "ro":
 					opt.ReadOnly = true
 					h0, _ = treeHash(opt.Dir, opt.ValueDir)
+				case "rw-other-compression", "ro-other-compression":
+					// every table records its own compression in the MANIFEST: opening with another
+					// setting must read the existing tables as they were written
+					for opt.Compression == w.Opt.Compression {
+						opt.Compression = []options.CompressionType{options.None, options.Snappy, options.ZSTD}[w.R.Intn(3)]
+					}
+					if kind == "ro-other-compression" {
+						opt.ReadOnly = true
+						h0, _ = treeHash(opt.Dir, opt.ValueDir)
+					}
 				case "rw-changed":
 					opt.NumCompactors = 2
 					opt.NumLevelZeroTables = 2
@@ -150,7 +161,18 @@ func C07(c *core.Ctx) {
 				}
 				st := hist.CheckState(c, "C07|after-reopen|"+kind, w.DB, w.M, hist.StateOpts{Managed: managed})
 				c.Count("invariance.reads_checked", st.Gets+st.IterItems)
-				if kind == "ro" {
+				if kind == "rw-other-compression" {
+					_ = w.RandomCommit(df, df)
+					_ = w.DB.Close()
+					db, err = drv.Open(w.Opt, managed)
+					if err != nil {
+						c.Violation("C07|reopen-error|after-other-compression", err.Error(), nil)
+						return
+					}
+					w.DB = db
+					hist.CheckState(c, "C07|after-reopen|back-from-other-compression", w.DB, w.M, hist.StateOpts{Managed: managed})
+				}
+				if kind == "ro" || kind == "ro-other-compression" {
 					if err := w.DB.Close(); err != nil {
 						c.Violation("C07|ro-close-error", err.Error(), nil)
 					}
